@@ -461,6 +461,16 @@ func (g *ribGen) retargetCase() RCase {
 			c.Steps = append(c.Steps, RStep{K: "flush", NIs: [][]int{{1}, {2}, {3}, {1, 2}, {1, 2, 3}}[g.r.Intn(5)]})
 		}
 	}
+	if len(added) > 0 && g.r.Chance(1, 3) {
+		// a REPLACE towards a group that does not exist yet is held; its entry is deleted meanwhile; the group arrives:
+		// the held operation is retried as what it is - a REPLACE of an entry that is gone (FAILED, no trace)
+		a := added[g.r.Intn(len(added))]
+		add("add", drv.OpSpec{NI: a.NI, Kind: "REPLACE", T: a.T, Key: a.Key, NHG: 7})
+		add("del", drv.OpSpec{NI: a.NI, Kind: "DELETE", T: a.T, Key: a.Key})
+		add("add", drv.OpSpec{NI: a.NI, Kind: "ADD", T: "nhg", Key: 7, NHs: [][2]uint64{{1, 1}}})
+		add("del", drv.OpSpec{NI: a.NI, Kind: "DELETE", T: a.T, Key: a.Key})
+		add("del", drv.OpSpec{NI: a.NI, Kind: "DELETE", T: "nhg", Key: 7})
+	}
 	if g.r.Chance(1, 2) {
 		// one instance is flushed while entries of the others may still point into it; its next-hop and groups are
 		// programmed again and then deleted (refused exactly while such an entry remains)
@@ -664,6 +674,13 @@ func oracleC01(c RCase) string {
 		}
 		for _, id := range o.Fails {
 			failed[id] = true
+			// DELETE is idempotent: a well-formed DELETE of a key under which nothing is installed is acknowledged
+			if st.K == "del" && st.Op != nil && st.Op.ID == id && wellFormedDelete(*st.Op) {
+				if _, installed := spec[keyText(*st.Op)]; !installed {
+					problem = fmt.Sprintf("step %d: DELETE of %s, under which nothing is installed, was answered FAILED (DELETE is idempotent)", i, keyText(*st.Op))
+					return
+				}
+			}
 		}
 		for _, id := range o.Pend {
 			if failed[id] {
@@ -713,6 +730,26 @@ func oracleC01(c RCase) string {
 		}
 	})
 	return problem
+}
+
+// wellFormedDelete: a DELETE that names an existing network instance and a syntactically valid key of its table.
+func wellFormedDelete(o drv.OpSpec) bool {
+	if o.Kind != "DELETE" || o.Nil || o.NI < 1 || o.NI > 3 || o.RawNI != "" || o.Bad || o.BadList != 0 {
+		return false
+	}
+	switch o.T {
+	case "v4":
+		_, ok := drv.V4Keys[o.Key]
+		return ok && o.Key < 10
+	case "v6":
+		_, ok := drv.V6Keys[o.Key]
+		return ok && o.Key < 10
+	case "mpls":
+		return o.Key >= 16 && o.Key <= 1048575
+	case "nh", "nhg":
+		return o.Key != 0
+	}
+	return false
 }
 
 type niKey struct {
